@@ -333,4 +333,19 @@ theorem crossStepB_iff (lhs rhs post : Ind) :
     crossStepB lhs rhs post = true ↔ CrossStep lhs rhs post := by
   simp [crossStepB, CrossStep, crossDirB_iff]
 
+theorem sum_eq_zero_of_all (l : List Nat) (h : ∀ n ∈ l, n = 0) : l.sum = 0 := by
+  induction l with
+  | nil => rfl
+  | cons a t ih =>
+    simp only [List.sum_cons]
+    have := h a (by simp)
+    have := ih (fun n hn => h n (by simp [hn]))
+    omega
+
+theorem getD_map_range {α} (f : Nat → α) (n k : Nat) (d : α) (h : k < n) :
+    ((List.range n).map f).getD k d = f k := by
+  have hl : k < ((List.range n).map f).length := by simp [h]
+  rw [getD_eq_getElem' _ _ _ hl]
+  simp
+
 end Vita.C02
